@@ -21,6 +21,35 @@ CLAIMED = {
    text="Fault = restart (serialise, discard, reload) injected at arbitrary prefixes of operation histories: the reloaded buffer and a never-reloaded twin receive the same continuation and must agree bitwise on every observable; the saved original is still checked against the reference.",
    note="Torn or failing writes are not injected (the property promises nothing about them). pickle / Orbax / file system are real and trusted.",
    technique="deterministic simulation with restart faults: twin continuation, bitwise comparison"),
+
+ "C01": dict(level="exploration", engine="TrainSim", design="§4 C01",
+   text="The complete train_* routines run against a scripted environment whose scheduler places episode ends (terminated / truncated, length 1, at warm-up end, ring wrap, budget end); every stored row is matched to the environment's own log through unique observation tags, and the acting module's probe input is compared with the current observation at every env.step. Sampled schedules, not proof.",
+   note="Stored rows are read through the documented `buffer` mapping. SimEnv ignores actions. On-policy collectors and tabular loops are covered by their own plan kinds.",
+   technique="deterministic simulation: scripted-environment schedule search over complete training runs, env-log vs stored-transition oracle, probes"),
+ "C05": dict(level="exploration", engine="TrainSim", design="§4 C05, Appendix A",
+   text="Event-granular frame monitor: every module/optimiser reachable by the harness is hashed at every env event and logged update of simulated training; changed components must be a subset of those the documented schedule trains at that event, optimiser step counters advance by exactly the documented number. Decides the history-shaped consequence of C05, not the per-call statement for arbitrary batches.",
+   note="NARROW SLICE: event granularity only. Contamination between two routines scheduled on the same event shows only through optimiser step counters.",
+   technique="deterministic simulation: scripted-environment schedule search over complete training runs, bitwise state-hash frame conditions between events"),
+ "C06": dict(level="exploration", engine="TrainSim", design="§4 C06, Appendix A",
+   text="Target / online parameter leaves are snapshotted at every env event and logged update of simulated training with tau in {0,0.005,0.3,1} and delays 1-7: scheduled soft updates must satisfy the Polyak recurrence (4e-6 rel., exact for tau 0/1), hard updates bitwise equality (TD7 chain link by link), all other intervals bitwise constancy; no shared nnx.Variable between target and online.",
+   note="Targets created inside a routine are observable from their first record_epoch. Arbitrary parameter trees / layer types beyond those the routines build are not generated.",
+   technique="deterministic simulation: scripted-environment schedule search over complete training runs, recurrence and frame oracles on parameter snapshots"),
+ "C10": dict(level="exploration", engine="TrainSim", design="§4 C10",
+   text="Simulated training of DDPG, TD3, TD3+LAP, TD7, MR.Q, PETS with adversarial Box bounds, noise and noise-clip settings and saturating policies: the environment checks every received action, the target critic's probe yields every smoothed target action (in box, within noise_clip*half-range of the target policy output on the same rows), the PETS reward-model probe yields every CEM candidate.",
+   note="'Any network output however large' and the key-determined form of the noise are pure clauses, not decided. SAC is not in the property's list.",
+   technique="deterministic simulation: scripted-environment schedule search over complete training runs, env-side bound monitor and module probes"),
+ "C11": dict(level="exploration", engine="TrainSim + TabularSim + SchedulerSim", design="§4 C11",
+   text="Protocol-checking environment (step after episode end, step counts), budgets, episode limits, starting counters, zero budgets and resume chains fed with the returned counter; parameter snapshots at the warm-up boundary; returned counter = start + executed on every exit path.",
+   note="DQN family warm-up gate is `step > batch_size` (the gate named in the anchors). An extra reset after the last episode is allowed.",
+   technique="deterministic simulation: scripted-environment schedule search over complete training runs, protocol monitor, step accounting, resume chains"),
+ "C13": dict(level="exploration", engine="TrainSim + TabularSim", design="§4 C13",
+   text="Loop-level clause only: in simulated DQN-family training every step without a recorded sampler draw must be greedy w.r.t. the live Q-network on the current observation, exploration counts must match the documented schedule (exact Poisson-binomial tails at 1e-9, per run and pooled); tabular loops with epsilon=0 act greedily on the lock-step reference table and with epsilon=1 take table-independent actions (twin runs).",
+   note="NARROW SLICE: softmax/Gaussian log-probabilities, entropies and sampling forms are pure single-call relations and are not addressed.",
+   technique="deterministic simulation: scripted-environment schedule search over complete training runs, recording sampler + Q probe, twin runs, exact binomial tails"),
+ "C14": dict(level="exploration", engine="TabularSim", design="§4 C14",
+   text="The real tabular learners run on a scripted discrete environment (scripted, apparently stochastic successors, rewards, starts, episode ends); a float64 numpy reference learner fed from the environment log only must be refined by the returned tables (Q-learning, SARSA, Monte-Carlo, Dyna-Q direct/planning/model); double Q-learning and SARSA(eps>0) by enumerating unobservable coin outcomes on short histories.",
+   note="float32 vs float64 tolerance 2e-5 over <= 50 updates.",
+   technique="deterministic simulation: scripted transition histories, refinement against executable reference learner"),
 }
 NA = {
  "C12": "pure value/gradient identities of single loss calls; no schedule, clock, fault or retained state for a simulator to control",
@@ -54,6 +83,8 @@ man = {
            "source_commits": [], "add_only": True},
  "engines": [
    {"name": "BufferSim", "path": "rlsim/buffersim.py", "serves_properties": ["C02", "C04", "C08", "C19"], "kind_free_text": "operation-history simulator for the replay buffers with generator seam and reference models"},
+   {"name": "TrainSim", "path": "rlsim/trainsim.py", "serves_properties": ["C01", "C03", "C05", "C06", "C07", "C09", "C10", "C11", "C13", "C15"], "kind_free_text": "complete training routines against a scripted environment (SimEnv), recording sampler, module probes, snapshot monitors"},
+   {"name": "TabularSim", "path": "rlsim/tabsim.py", "serves_properties": ["C13", "C14", "C11"], "kind_free_text": "tabular learners against a scripted discrete environment with a float64 reference learner"},
  ],
  "checks": checks,
  "not_applicable": na,
